@@ -27,7 +27,7 @@ LEVEL = "exploration"
 RULE = (
     "Projects as in C01 (all source kinds, defects, binaries, names with spaces / non-ASCII, Git or not) with expression depth <= 2 (AND / OR / WITH "
     "nesting, several expressions per file), optionally one file padded to a size in {1, 8191, 8192, 8193, 16384, 16385, 24577, 65535, 65536, 65537, 131073, 200001} bytes, optionally a "
-    "byte-identical copy of a file under the same base name in another directory, LicenseRef- texts (multi-line, non-ASCII); options: "
+    "byte-identical copy of a file under the same base name in another directory, LicenseRef- texts (multi-line, non-ASCII), optionally one more unused LicenseRef- text (names containing 'Unknown', other extensions); options: "
     "--add-license-concluded (with --creator-person / --creator-organization, with and without '(...)'), -o FILE, worker pool on/off.  Oracle: "
     "independent tag-value reader; FileName set = lint's file set; SPDXIDs unique and in bijection with DESCRIBES; FileChecksum = hashlib.sha1; "
     "LicenseInfoInFile set and FileCopyrightText lines = lint's; LicenseConcluded NOASSERTION / NONE / truth-table-equivalent to the conjunction; "
@@ -55,6 +55,10 @@ def case(draw):
     concluded = draw(st.booleans())
     person = draw(st.sampled_from([None, "Jane Doe", "Jane Doe (jane@example.org)", "Zoë (x)"]))
     org = draw(st.sampled_from([None, "ACME", "ACME (info@acme.example)"]))
+    # one more custom licence text that no file uses, under names the tool might treat specially
+    extra = draw(st.sampled_from([None, None, "LicenseRef-spare.txt", "LicenseRef-Vendor-Unknown-terms.txt", "LicenseRef-UnknownOrigin.md", "LicenseRef-a.b.text"]))
+    if extra is not None and not any(r.rsplit(".", 1)[0] == extra.rsplit(".", 1)[0] or r == extra for r in state["licenses"]):
+        state = dict(state, licenses=state["licenses"] + [extra])
     return {"state": state, "pad": pad, "dup": dup, "concluded": concluded, "person": person, "org": org,
             "outfile": draw(st.sampled_from([None, None, "out.spdx", "sub dir/bom.spdx"])), "mp": draw(st.integers(0, 4)) == 0}
 
